@@ -66,7 +66,8 @@ def gt(kinds: List[int]) -> int:
     return 1 if got == exp else 2
 
 
-KW = ['select', 'insert', 'update', 'delete', 'create', 'drop', 'alter', 'replace', 'merge', 'truncate', 'create or replace', 'commit']
+KW = ['select', 'insert', 'update', 'delete', 'create', 'drop', 'alter', 'replace', 'merge', 'truncate', 'create or replace', 'commit',
+      'start', 'rollback', 'upsert']
 PREFIX = ['', ' ', '\n\t', '-- c\n', '/* c */ ', '--c\n  /* d */\n', '/*+ h */']
 CONT = [' x', ' into t values (1)', '\n*', ' t set a = 1', ';', '', ' /* c */ into t', ' table if exists t']
 CTE = ['with a as (select 1) ', 'with a as (select 1),\n b as (select 2)\n', 'WITH a AS (select 1)\n-- main query\n', 'with a as (select 1) /* main */ ',
@@ -81,8 +82,10 @@ def _case(w, c):
 def gtype_why(mode, ki, pi, ci, cont):
     if mode == 0:
         w = _case(KW[ki % len(KW)], ci)
-        if ' ' in w and pi % 2:
+        if ' ' in w and pi % 3 == 1:
             w = w.replace(' ', '  \n')
+        elif ' ' in w and pi % 3 == 2:
+            w = w.replace(' ', '\t')
         text = PREFIX[pi % len(PREFIX)] + w + CONT[cont % len(CONT)]
         exp = ' '.join(KW[ki % len(KW)].upper().split())
     else:
@@ -101,11 +104,11 @@ def gtype_why(mode, ki, pi, ci, cont):
 
 def gtype(mode: int, ki: int, pi: int, ci: int, cont: int) -> int:
     """
-    pre: 0 <= mode < 2 and 0 <= ki < 12 and 0 <= pi < 7 and 0 <= ci < 3 and 0 <= cont < 8
+    pre: 0 <= mode < 2 and 0 <= ki < 15 and 0 <= pi < 7 and 0 <= ci < 3 and 0 <= cont < 8
     pre: PART < 0 or pi == PART
     post: _ != 2
     """
-    mode, ki, pi, ci, cont = conc(mode, 1), conc(ki, 11), conc(pi, 6), conc(ci, 2), conc(cont, 7)
+    mode, ki, pi, ci, cont = conc(mode, 1), conc(ki, 14), conc(pi, 6), conc(ci, 2), conc(cont, 7)
     if mode == 1 and (ki >= len(CTE_DML) or cont >= len(CTE)):
         return 0
     return 2 if gtype_why(mode, ki, pi, ci, cont) else 1
